@@ -141,6 +141,8 @@ def c14_driver(a, col):
         rng = np.random.default_rng([a.seed, 14, a.shard, prog])
         prog += 1
         seed = int(rng.integers(0, 2**31 - 1))
+        if rng.random() < 0.2:
+            seed = int(rng.choice([0, 1, 2, 2**31 - 1, 2**32 - 1]))  # "for every seed": the edges too
         contraction = bool(rng.random() < 0.5)
         try:
             gen, decl = c14_program(rng, a.tier)
